@@ -44,55 +44,55 @@ func (s StrGoStringer) GoString() string { return "G<" + string(s) + ">" }
 
 // ---- struct programs ---------------------------------------------------
 
-// panicSpec: if non-nil the method panics with Payload.
-type panicSpec struct {
-	Payload interface{}
-}
+// panicSpec: if non-nil the method panics with the payload it returns.
+// (A closure: printed by reflection it shows a code address that is the
+// same for every value, never a heap address.)
+type panicSpec func() interface{}
 
 type StringerV struct {
 	S   string
-	pan *panicSpec
+	pan panicSpec
 }
 
 func (s StringerV) String() string {
 	if s.pan != nil {
-		panic(s.pan.Payload)
+		panic(s.pan())
 	}
 	return s.S
 }
 
 type StringerP struct {
 	S   string
-	pan *panicSpec
+	pan panicSpec
 }
 
 func (s *StringerP) String() string {
 	if s.pan != nil { // nil receiver: nil-pointer dereference, as in user code
-		panic(s.pan.Payload)
+		panic(s.pan())
 	}
 	return s.S
 }
 
 type ErrV struct {
 	S   string
-	pan *panicSpec
+	pan panicSpec
 }
 
 func (e ErrV) Error() string {
 	if e.pan != nil {
-		panic(e.pan.Payload)
+		panic(e.pan())
 	}
 	return e.S
 }
 
 type ErrP struct {
 	S   string
-	pan *panicSpec
+	pan panicSpec
 }
 
 func (e *ErrP) Error() string {
 	if e.pan != nil {
-		panic(e.pan.Payload)
+		panic(e.pan())
 	}
 	return e.S
 }
@@ -119,12 +119,12 @@ func (e ErrStringer) String() string { return "str:" + e.S }
 
 type GoStringerV struct {
 	S   string
-	pan *panicSpec
+	pan panicSpec
 }
 
 func (g GoStringerV) GoString() string {
 	if g.pan != nil {
-		panic(g.pan.Payload)
+		panic(g.pan())
 	}
 	return g.S
 }
@@ -136,22 +136,23 @@ func (g GoStrStringer) GoString() string { return "go:" + g.S }
 func (g GoStrStringer) String() string   { return "st:" + g.S }
 
 // FormatterV runs a script against its fmt.State.
+// (scripts are held as closures: printed by reflection a func shows its
+// code address, which is the same for every script, so script contents
+// and operand addresses never leak into an output)
 type FormatterV struct {
-	ops  []*Op
-	inst int
+	run func(st fmt.State, verb rune)
 }
 
-func (f *FormatterV) Format(st fmt.State, verb rune) { runFormatterOps(st, verb, f.ops, f.inst) }
+func (f *FormatterV) Format(st fmt.State, verb rune) { f.run(st, verb) }
 
 // ErrFormatter: error + Formatter (Formatter wins in fmt)
 type ErrFormatter struct {
-	S    string
-	ops  []*Op
-	inst int
+	S   string
+	run func(st fmt.State, verb rune)
 }
 
 func (e *ErrFormatter) Error() string                  { return e.S }
-func (e *ErrFormatter) Format(st fmt.State, verb rune) { runFormatterOps(st, verb, e.ops, e.inst) }
+func (e *ErrFormatter) Format(st fmt.State, verb rune) { e.run(st, verb) }
 
 // ---- SafeValue-marked types -------------------------------------------
 
@@ -204,43 +205,34 @@ func (r RegStringer) String() string { return "R<" + string(r) + ">" }
 // ---- redact-specific programs -----------------------------------------
 
 type SafeFmtV struct {
-	ops  []*Op
-	inst int
+	run func(p redact.SafePrinter, verb rune)
 }
 
-func (s SafeFmtV) SafeFormat(p redact.SafePrinter, verb rune) {
-	runWriterOpsOnPrinter(p, verb, s.ops, s.inst)
-}
+func (s SafeFmtV) SafeFormat(p redact.SafePrinter, verb rune) { s.run(p, verb) }
 
 type SafeFmtP struct {
-	ops  []*Op
-	inst int
+	run func(p redact.SafePrinter, verb rune)
 }
 
-func (s *SafeFmtP) SafeFormat(p redact.SafePrinter, verb rune) {
-	runWriterOpsOnPrinter(p, verb, s.ops, s.inst)
-}
+func (s *SafeFmtP) SafeFormat(p redact.SafePrinter, verb rune) { s.run(p, verb) }
 
 // error that is also a SafeFormatter
 type ErrSafeFmt struct {
-	S    string
-	ops  []*Op
-	inst int
+	S   string
+	run func(p redact.SafePrinter, verb rune)
 }
 
-func (e *ErrSafeFmt) Error() string { return e.S }
-func (e *ErrSafeFmt) SafeFormat(p redact.SafePrinter, verb rune) {
-	runWriterOpsOnPrinter(p, verb, e.ops, e.inst)
-}
+func (e *ErrSafeFmt) Error() string                              { return e.S }
+func (e *ErrSafeFmt) SafeFormat(p redact.SafePrinter, verb rune) { e.run(p, verb) }
 
 type SafeMsgV struct {
 	S   string
-	pan *panicSpec
+	pan panicSpec
 }
 
 func (s SafeMsgV) SafeMessage() string {
 	if s.pan != nil {
-		panic(s.pan.Payload)
+		panic(s.pan())
 	}
 	return s.S
 }
